@@ -147,6 +147,18 @@ CHECKS = {
              "More/InputOffset/Token. Hooks: internal/decoder/stream.go read()/reset() (build tag verif).",
         technique="TLA+ window-protocol spec model-checked by TLC; scripted-reader schedule replay; TLC trace validation of hook events",
         engine="StreamDecoder", design="8/C09"),
+    "C20": dict(
+        level="model_checking",
+        text="PathEval.tla contains the documented path grammar as a character-level recursive-descent parser, reference evaluation "
+             "(child, index, wildcard, quoted names, recursive descent with RFC 9535 meaning, document order) over tagged document "
+             "trees rendered to JSON text, and longer paths enumerated at selector level. TLC enumerates every string up to length 5/6 "
+             "over {$ . [ ] * ' \" 0 1 a b} and every sequence of up to 2/3 selectors from a 10-selector catalogue, checks balance "
+             "properties, and exports membership and expected results for four documents. The harness replays them into CreatePath / "
+             "Extract / Path.Unmarshal and runs every 3-call history over 7 documents (3 failing) on one reused Path against fresh Paths.",
+        note="trusted: TLC and PathEval.tla as the reference evaluation; strings CreatePath accepts outside the reference language are "
+             "only checked for purity; an empty reference selection may be reported as an error.",
+        technique="TLA+ path grammar + reference evaluator; TLC-enumerated paths with expected selections replayed into the library; reuse histories against fresh objects",
+        engine="PathEval", design="8/C20"),
 }
 
 NOT_YET = "check not built yet in this round; planned (see DESIGN.md section 8)"
@@ -192,8 +204,10 @@ def main():
 
 NA = {}
 HOOK_COMMITS = ["cb16685"]
-FIX_COMMITS = ["3ba2124", "35e540e", "5d9c0a9", "182cdbb", "c177d40", "4cc9b5c", "e04537c", "f4cd737", "4b54f48"]
+FIX_COMMITS = ["3ba2124", "35e540e", "5d9c0a9", "182cdbb", "c177d40", "4cc9b5c", "e04537c", "f4cd737", "4b54f48", "54b79dc"]
 ENGINES = [
+    dict(name="PathEval", path="specs/PathEval.tla", serves_properties=["C20"],
+         kind_free_text="TLA+ JSON Path grammar (character-level parser) and reference evaluation over document trees; exhaustive path enumeration and export"),
     dict(name="KeyLookup", path="specs/KeyLookup.tla", serves_properties=["C15"],
          kind_free_text="TLA+ reference field-selection rule + implementation-shaped bitmap matcher; refinement check, named deviation, case export"),
     dict(name="GoTypes", path="specs/GoTypes.tla", serves_properties=["C01", "C02", "C03", "C04", "C13"],
